@@ -536,3 +536,8 @@ package tchannel
 //@   label made-frames-have-the-maximum-payload-capacity
 //@   atcall NewFrame arg0 == 65519
 //@   property C01 C03
+
+// (primary file) the fragment reader's Read: a fragment whose checksum or
+// checksum type is wrong fails the read for good -- C02.
+//@ func (r *fragmentingReader) Read(b []byte) (n int, err error)
+//@   property C02
